@@ -1198,7 +1198,7 @@ impl World for StoreWorld {
         if slow {
             for o in ops.iter_mut() {
                 match o {
-                    Op::PutTtl(_, _, ttl) => *ttl *= 1000,
+                    Op::PutTtl(_, _, ttl) => *ttl = *ttl * 1000 + if rng.chance(1, 3) { rng.below(1000) } else { 0 },
                     Op::Advance(d) if *d < 1000 => *d *= 1000,
                     Op::StepBack(d) => *d *= 1000,
                     _ => {}
